@@ -326,14 +326,28 @@ func (e *Engine) specBuiltin(env *Env, name string, ex *SExpr) (Val, bool) {
 			ref = slRef(x.S)
 		}
 		return Val{S: fmt.Sprintf("(> %s %s)", ref, a0), T: tBool}, true
+	case "visited":
+		// visited(m): keys already yielded by the (innermost active) range loop over map m
+		m := arg(0)
+		for _, hn := range sortedKeys(env.st.heaps) {
+			if strings.HasPrefix(hn, "IT!") && iterMapTerm[hn] == m.S {
+				kt := iterKeyType[hn]
+				return Val{S: env.heap(hn, fmt.Sprintf("(Array %s Bool)", sortOf(kt))), T: &ghostMapType{key: kt, elem: tBool}}, true
+			}
+		}
+		env.errf("visited(): no active range loop over %s", ex.Args[0])
+		return Val{}, false
 	case "elems":
 		// elems(s, n): the set of the first n elements of slice s (ghost set); recursive definition over n
-		if env.quant > 0 || env.st == nil {
-			env.errf("elems() is not available inside quantifiers")
+		if env.st == nil {
 			return Val{}, false
 		}
 		sv := arg(0)
 		n := arg(1)
+		if strings.Contains(sv.S, "q!") {
+			env.errf("elems(): the slice may not depend on a quantified variable")
+			return Val{}, false
+		}
 		slt, ok := sv.T.Underlying().(*types.Slice)
 		if !ok || sortOf(slt.Elem()) != "Int" {
 			env.errf("elems() needs a slice of integers")
